@@ -474,6 +474,67 @@ def part_levels(ctx, impl, rng, quick):
 
 
 # ------------------------------------------------------------------------------------------------
+# part 3b: PropagationClustering.fit with a prescribed raw labelling (compaction, sort, split, secondary outputs)
+# ------------------------------------------------------------------------------------------------
+def part_propagation(ctx, impl, rng, quick):
+    n_cases = 200 if quick else 2000
+    nmax = 12 if quick else 40
+    site = SITE['propagation']
+    cases = []
+    for _ in range(n_cases):
+        kind, nr, nc, t, fam = random_case(rng, nmax)
+        bip = nr != nc
+        n = nr + nc if bip else nr
+        raw = random_labels(rng, n)          # labels >= 0 with gaps and size ties, as the vote kernel leaves them
+        opts = dict(sort_clusters=rng.random() < 0.7, return_probs=True, return_aggregate=True)
+        args = dict(m=mspec(nr, nc, t), raw=raw, options=opts)
+        r = impl.call('c05', 'propagation_post', args)
+        ctx.traces += 1
+        ctx.count('propagation_post:' + ('bipartite' if bip else kind if kind != 'bipartite' else 'directed'), ('ppost', args),
+                  len(set(raw)) >= 2)
+        if 'ok' not in r:
+            ctx.violation(site, 'fit with a prescribed raw labelling raised', case=args, observed=r, check='error', stage='prescribed')
+            continue
+        cases.append((args, r['ok'], nr, nc, t, bip))
+    exprs = []
+    for args, o, nr, nc, t, bip in cases:
+        srt = args['options']['sort_clusters']
+        perm = o['argsort'][0]['perm'] if (srt and o['argsort']) else []   # reindex_labels precedes _secondary_outputs
+        keys = ('(map (fun c => (- Z.of_nat c)%%Z) (unique_counts (map Z.of_nat (snd (unique_inverse %s)))))' % zlist(args['raw'])) if srt else '[]'
+        exprs.append('(argsort_ok_b %s %s, propagation_labels (fun _ => %s) %s %s %d %s)' %
+                     (keys, nlist(perm), nlist(perm), cbool(srt), cbool(bip), nr, zlist(args['raw'])))
+    vals = coq_eval('c05ppost', IMPORTS, exprs)
+    sec = []
+    for (args, o, nr, nc, t, bip), v in zip(cases, vals):
+        okc, (lab, split) = v
+        srt = args['options']['sort_clusters']
+        got = labels_vec(o) if bip else o['labels']['v']
+        allv = list(lab) if split is None else list(split[1][0]) + list(split[1][1])
+        if srt and not okc:
+            # sort_clusters requested and no np.argsort answer sorting the negated sizes: the sort is missing or altered
+            ok, cnt = sizes_sorted(got) if got else (True, [])
+            if not ok:
+                ctx.violation(site, 'sort_clusters=True but cluster sizes are not non-increasing in the label', case=args, algo='propagation',
+                              check='sizes_sorted', observed=got, sizes=cnt, stage='prescribed')
+            else:
+                ctx.violation(site, 'np.argsort is not applied to the negated cluster sizes the model expects', case=args, observed=o['argsort'],
+                              check='correspondence', stage='prescribed')
+            continue
+        if allv != got or o['bipartite'] != bip:
+            ctx.violation(site, 'labels differ from the model of compaction + sort + split', case=args, expected=allv, observed=got,
+                          check='correspondence', stage='prescribed')
+            continue
+        if not (same_partition(got, args['raw']) and is_contiguous(got) and (not srt or sizes_sorted(got)[0])):
+            ctx.violation(site, 'labels are not the prescribed partition on 0..k-1 (sizes non-increasing when sorted)', case=args,
+                          observed=got, check='sizes_sorted' if is_contiguous(got) and same_partition(got, args['raw']) else 'spec',
+                          algo='propagation', stage='prescribed')
+        sec.append((args, o, nr, nc, t, bip))
+    check_secondary(ctx, site, sec, 'ppost', extra=dict(algo='propagation', stage='prescribed'))
+    if cases:
+        ctx.sample({'kind': 'propagation_prescribed', 'args': cases[-1][0], 'impl_labels': labels_vec(cases[-1][1])})
+
+
+# ------------------------------------------------------------------------------------------------
 # part 4: KCenters._init_centers with recorded draws and PageRank answers
 # ------------------------------------------------------------------------------------------------
 def part_kcinit(ctx, impl, rng, quick):
@@ -731,6 +792,7 @@ def run(ctx, scratch):
         part_standalone(ctx, impl, rng, quick)
         part_post(ctx, impl, rng, quick)
         part_levels(ctx, impl, rng, quick)
+        part_propagation(ctx, impl, rng, quick)
         part_kcinit(ctx, impl, rng, quick)
         part_fit(ctx, impl, rng, quick)
     summary = {}
@@ -740,7 +802,7 @@ def run(ctx, scratch):
     ctx.extra['violation_summary'] = summary
     ctx.rule = ('standalone reindex_labels / np.unique(return_inverse) / get_membership on label vectors with size ties, gaps and '
                 'negatives; Louvain._post_processing on prescribed memberships x shuffle index x flags; Louvain/Leiden.fit with the '
-                'optimiser replaced by prescribed per-level answers; KCenters._init_centers with recorded draws; Louvain, Leiden, '
+                'optimiser replaced by prescribed per-level answers; PropagationClustering.fit with a prescribed raw labelling; KCenters._init_centers with recorded draws; Louvain, Leiden, '
                 'PropagationClustering, KCenters on all undirected graphs with <= 4 nodes and all 2x2/2x3/3x2 biadjacency matrices '
                 '(default options) and on 13 random graph families (undirected, directed, bipartite; disconnected, isolated nodes, '
                 'self-loops; integer and dyadic weights) x random points of the option space. Model evaluated by vm_compute inside '
